@@ -25,7 +25,9 @@ META = {
                  "shapes x arguments and all chunkings; replay into dask + TLC validation of recorded calls",
     "level_text": "Small-scope exhaustive: TLC enumerates, for shapes with <= 3 axes and extents <= 4, every argument of reshape "
                   "(all target shapes incl. -1), transpose/moveaxis/swapaxes (all axes), squeeze/expand_dims, flip/rot90/roll, "
-                  "take/shuffle/repeat/tile/broadcast_to, tril/triu, diff, pad (constant, edge, reflect, symmetric, wrap incl. pads "
+                  "take/shuffle (incl. indexers that are nearly the identity grouping of the input's own chunks)/repeat/tile (reps of every "
+                  "length 0..ndim+2)/broadcast_to, expand_dims/squeeze with axis tuples, atleast_nd, block of nesting depth 1-3, "
+                  "tril/triu, diff, pad (constant, edge, reflect, symmetric, wrap incl. pads "
                   "wider than the axis, maximum/minimum/mean), concatenate/stack/block with NumPy and dask inputs mixed, and all "
                   "chunkings of every input shape; the TLA+ reference gives shape, content and error; dask is replayed block by "
                   "block. Random larger calls are decided by TLC from recorded observations.",
